@@ -51,7 +51,7 @@ func targets3(n univ.SNode) []reflect.Type {
 	case "union[int,long]", "union[long,int]", "union[long]":
 		return []reflect.Type{i64, reflect.TypeOf(int(0))}
 	case "union[null,int,long]":
-		return []reflect.Type{i64}
+		return []reflect.Type{i64, reflect.TypeOf(int32(0))}
 	case "union[string]":
 		return []reflect.Type{reflect.TypeOf("")}
 	case "array>union[int,long]":
@@ -112,6 +112,11 @@ func runNode3(c *fw.Ctx, idx int, n univ.SNode) {
 		return
 	}
 	rs := ref.Record("Top", ref.F("f", n.Schema), ref.F("z", ref.Prim("long")))
+	rs2 := ref.Record("Top", ref.F("z", ref.Prim("long")), ref.F("f", n.Schema))
+	sentinelEnc := ref.AppendLong(nil, sentinel)
+	neighbourFor := func(ft reflect.Type) reflect.Type {
+		return reflect.StructOf([]reflect.StructField{{Name: "F", Type: ft, Tag: `json:"f"`}, {Name: "Z", Type: reflect.TypeOf(int32(0)), Tag: `json:"z"`}, {Name: "Z2", Type: reflect.TypeOf(int32(0)), Tag: `json:"-"`}})
+	}
 	ds := datums3(n)
 	targets := targets3(n)
 	maxBlocks := 0
@@ -162,6 +167,14 @@ func runNode3(c *fw.Ctx, idx int, n univ.SNode) {
 				f := fileCase{schema: rs, datums: []ref.Datum{rec}, encoded: [][]byte{e.b}, comp: []int{1}, codec: "null", mode: k % filedrv.NumModes, encDesc: e.vec}
 				locus := n.Chain + "|" + typeChain(ft)
 				readAndCompare(c, f, f.bytes(), structFor(ft), ti%2 == 1, locus, true)
+				if ft.Size() < 8 {
+					// a narrow target with a narrow neighbour right behind it that the writer's schema puts FIRST
+					// (fields match by name): decoding f must leave the already decoded neighbour alone
+					k++
+					dEnc := e.b[:len(e.b)-len(sentinelEnc)]
+					f2 := fileCase{schema: rs2, datums: []ref.Datum{ref.DRecord(ref.DLong(sentinel), d)}, encoded: [][]byte{append(append([]byte(nil), sentinelEnc...), dEnc...)}, comp: []int{1}, codec: "null", mode: k % filedrv.NumModes, encDesc: e.vec}
+					readAndCompare(c, f2, f2.bytes(), neighbourFor(ft), false, locus+"|narrow-neighbour", true)
+				}
 			}
 		}
 	}
@@ -217,7 +230,7 @@ func init() {
 			if tier == "thorough" {
 				d, cap = 3, "all encodings of a datum at nesting depth <=1, the first 20000 at depth 2 and the first 256 at depth 3 (capped enumerations are counted in the evidence)"
 			}
-			return fmt.Sprintf("files written by the reference writer (never by the library): record{f:S, z:long(sentinel)} for every S of nesting depth <=%d over leaves {boolean,int,long,float,double,bytes,string,fixed,record,date,timestamp-millis/micros,RFC3339 string} and constructors {array,map,record,[null,S],[S,null]} plus type-compatible multi/single-branch unions; per S: every datum of a bounded alphabet × EVERY legal serialisation (arrays/maps split into every composition of blocks, each with or without byte-size prefix; %s) × every compatible Go target (pointer indirection, int/int16/int32/int64, float32/64, null.*, time.Time, *[]T, *map) as single-record files, files of 1000 and 20000 identical records (compression ratios far above 32:1), and 2–3-record files under every partition into file blocks × {null,deflate,snappy}, reader chunking rotating; plus streaming use — every sequence of <=6 records over 5 record shapes that allocate 0/1/2/5 pointed-to items with nullable fields null or set, under 2–4 block layouts × codecs rotating, with the callback comparing the delivered record and closing its bank at once or one record later, so that recycled banks are exercised; oracle gv.Expect (value, or 'must be an error' for an integer that does not fit); non-trivial = a distinct (file, target) that was read and compared", d, cap)
+			return fmt.Sprintf("files written by the reference writer (never by the library): record{f:S, z:long(sentinel)} for every S of nesting depth <=%d over leaves {boolean,int,long,float,double,bytes,string,fixed,record,date,timestamp-millis/micros,RFC3339 string} and constructors {array,map,record,[null,S],[S,null]} plus type-compatible multi/single-branch unions; per S: every datum of a bounded alphabet × EVERY legal serialisation (arrays/maps split into every composition of blocks, each with or without byte-size prefix; %s) × every compatible Go target (pointer indirection, int/int16/int32/int64, float32/64, null.*, time.Time, *[]T, *map) as single-record files (narrow targets also with a narrow neighbour field that the writer's schema places first), files of 1000 and 20000 identical records (compression ratios far above 32:1), and 2–3-record files under every partition into file blocks × {null,deflate,snappy}, reader chunking rotating; plus streaming use — every sequence of <=6 records over 5 record shapes that allocate 0/1/2/5 pointed-to items with nullable fields null or set, under 2–4 block layouts × codecs rotating, with the callback comparing the delivered record and closing its bank at once or one record later, so that recycled banks are exercised; oracle gv.Expect (value, or 'must be an error' for an integer that does not fit); non-trivial = a distinct (file, target) that was read and compared", d, cap)
 		},
 		Assumptions: []string{
 			"'does not fit is an error' is anchored on integers only; doubles are only decoded into float32 when exactly representable... (datums are exact float32 values or the comparison is value-exact after float32 conversion)",
